@@ -32,7 +32,7 @@ func (h *ZnHttpHandler) ServeHTTP(w http.ResponseWriter, r *http.Request) {
 		"当前请求": reqObj,
 	}
 	// execute code
-	rtnValue, err := h.interpreter.LoadFile(h.entryFile).Execute(varInput)
+	rtnValue, err := h.interpreter.Fork().LoadFile(h.entryFile).Execute(varInput)
 	sendHTTPResponse(rtnValue, err, w)
 }
 
